@@ -416,14 +416,14 @@ func init() {
 
 	planTable["C38"] = func(q bool) *Plan {
 		p := &Plan{Level: "model_checking", Engine: "E-sched",
-			Text:      "Real DB with 2 compactors, a 16 KiB memtable, one memtable slot and an L0 stall limit of 2 (so writers stall on the memtable queue and on L0, and only badger's own compactors can release them): 8 three-thread scenarios (commits x commits x Close; WriteBatch.Flush x iteration with ValueCopy x RunValueLogGC; commits x DropAll; commits x DropPrefix x reader; Flatten x commits; Subscribe+cancel x commits x Close; two Close calls; Sync x commits; and a commit x StreamWriter PrepareIncremental/Prepare + Write + Flush with a point between the commit's write and its timestamp being marked done; plus a subscriber with 3 / 1005 / 1500 commits queued (batched by the publisher) or 3 / 999..1003 / 1500 commits published as one batch each (the subscriber channel holds 1000, so the publisher is blocked on it with its lock held) behind a slow callback that then fails: Subscribe, later commits and Close must return, decided by quiescence of the bubble; plus Close called with level 0 exactly at the stall limit (2 or 3 tables) and an active and/or an already queued memtable still to flush, with 2 or 4 compactors whose first tick has not fired: Close must return within 10 virtual minutes and every key must be there after re-open) are run under every interleaving of their API calls and the internal write/flush/compaction points up to the preemption bound; every call must return within 120 s of VIRTUAL time (2400 compactor ticks), otherwise the goroutine dump is the counterexample; a panic or fatal exit is a violation.",
+			Text:      "Real DB with 2 compactors, a 16 KiB memtable, one memtable slot and an L0 stall limit of 2 (so writers stall on the memtable queue and on L0, and only badger's own compactors can release them): 8 three-thread scenarios (commits x commits x Close; WriteBatch.Flush x iteration with ValueCopy x RunValueLogGC; commits x DropAll; commits x DropPrefix x reader; Flatten x commits; Subscribe+cancel x commits x Close; two Close calls; Sync x commits; and a commit x StreamWriter PrepareIncremental/Prepare + Write + Flush with a point between the commit's write and its timestamp being marked done; plus a subscriber with 3 / 1005 / 1500 commits queued (batched by the publisher) or 3 / 999..1003 / 1500 commits published as one batch each (the subscriber channel holds 1000, so the publisher is blocked on it with its lock held) behind a slow callback that then fails: Subscribe, later commits and Close must return, decided by quiescence of the bubble; plus Close called with level 0 exactly at the stall limit (2 or 3 tables) and an active and/or an already queued memtable still to flush, with 2 or 4 compactors whose first tick has not fired: Close must return within 10 virtual minutes and every key must be there after re-open; plus DB.Load of a backup cut at every byte, after which Update and View must still return) are run under every interleaving of their API calls and the internal write/flush/compaction points up to the preemption bound; every call must return within 120 s of VIRTUAL time (2400 compactor ticks), otherwise the goroutine dump is the counterexample; a panic or fatal exit is a violation.",
 			Note:      "Liveness is 'within the virtual horizon'; a schedule that only fails to finish in real time is inconclusive, not a violation.",
 			Technique: "stateless model checking with a virtual-time horizon (controlled scheduler, preemption-bounded DFS)",
 			Rule:      "8 scenarios x schedules up to the bound; outcome = returned / deadlock"}
 		if q {
-			p.Stages = []Stage{sched("c38", 0, 8, 40, prm("cases", 8)), sched("c38sw", 2, 2, 30, prm("cases", 2)), en("c38sub", 5, 30, nil), en("c38stall", 4, 30, nil), sched("c03close", 1, 16, 30, nil), sched("c38", 1, 8, 45, prm("cases", 8))}
+			p.Stages = []Stage{sched("c38", 0, 8, 40, prm("cases", 8)), sched("c38sw", 2, 2, 30, prm("cases", 2)), en("c38sub", 5, 30, nil), en("c38stall", 4, 30, nil), en("c24trunc", 16, 20, nil), sched("c03close", 1, 16, 30, nil), sched("c38", 1, 8, 45, prm("cases", 8))}
 		} else {
-			p.Stages = []Stage{sched("c38", 1, 8, 600, prm("cases", 8)), sched("c38sw", 3, 2, 300, prm("cases", 2)), en("c38sub", 5, 60, nil), en("c38stall", 4, 60, nil), sched("c03close", 2, 16, 300, nil), sched("c38", 2, 8, 1800, prm("cases", 8))}
+			p.Stages = []Stage{sched("c38", 1, 8, 600, prm("cases", 8)), sched("c38sw", 3, 2, 300, prm("cases", 2)), en("c38sub", 5, 60, nil), en("c38stall", 4, 60, nil), en("c24trunc", 16, 60, nil), sched("c03close", 2, 16, 300, nil), sched("c38", 2, 8, 1800, prm("cases", 8))}
 		}
 		return p
 	}
@@ -529,9 +529,9 @@ func init() {
 			Technique: "bounded-exhaustive enumeration of histories with backup points + stateless model checking of backup producers vs a concurrent commit (controlled scheduler)",
 			Rule:      "all operation sequences up to the length (maintenance-only prefixes pruned) x NumVersionsToKeep; schedules up to the bound"}
 		if q {
-			p.Stages = []Stage{sched("c24sched", 2, 8, 40, nil), sched("c24load", 2, 4, 30, nil), en("c24seq", 16, 90, prm("len", 3)), en("c25seq", 16, 40, prm("maxsize_only", true))}
+			p.Stages = []Stage{sched("c24sched", 2, 8, 40, nil), sched("c24load", 2, 4, 30, nil), en("c24seq", 16, 90, prm("len", 3)), en("c25seq", 16, 40, prm("maxsize_only", true)), en("c24trunc", 16, 30, nil)}
 		} else {
-			p.Stages = []Stage{sched("c24sched", 3, 16, 300, nil), sched("c24load", 3, 16, 300, nil), en("c24seq", 16, 1500, prm("len", 5)), en("c25seq", 16, 300, prm("maxsize_only", true))}
+			p.Stages = []Stage{sched("c24sched", 3, 16, 300, nil), sched("c24load", 3, 16, 300, nil), en("c24seq", 16, 1500, prm("len", 5)), en("c25seq", 16, 300, prm("maxsize_only", true)), en("c24trunc", 16, 60, nil)}
 		}
 		return p
 	}
